@@ -264,11 +264,13 @@ def tree(rnd, d, depth, *a, **k):
     return with_history(rnd, _tree(rnd, d, depth, *a, **k))
 
 
-def point(rnd, node, interior=True):
-    """evaluation point; positive for log-transforms"""
+def point(rnd, node, interior=True, far=False):
+    """evaluation point; positive for log-transforms; `far`: tens of standard deviations away from everything"""
     d = node.d
     if node.positive_only:
         return np.array([[node_base(node) ** rnd.uniform(-1.0, 1.0)] for _ in range(d)])
+    if far:
+        return np.array([[rnd.choice([-1, 1]) * rnd.uniform(25, 70)] for _ in range(d)])
     return np.array([[rnd.uniform(-1.4, 1.4) if interior else rnd.uniform(-4, 4)] for _ in range(d)])
 
 
